@@ -7,6 +7,7 @@ import (
 	"time"
 
 	"github.com/buildbuildio/pebbles/requests"
+	"github.com/buildbuildio/pebbles/verifhook"
 	"github.com/gobwas/ws"
 	"github.com/gobwas/ws/wsutil"
 )
@@ -50,6 +51,7 @@ func (q *MultiOpQueryer) Subscribe(req *requests.Request, closeCh <-chan struct{
 			recover()
 		}()
 		<-closeCh
+		verifhook.At("qs.closer.gotClose")
 		conn.Close()
 	}()
 
@@ -59,6 +61,7 @@ func (q *MultiOpQueryer) Subscribe(req *requests.Request, closeCh <-chan struct{
 				recover()
 			}()
 			conn.Close()
+			verifhook.At("qs.reader.beforeSendNil")
 			// indicate that it's done
 			resCh <- nil
 		}()
@@ -121,6 +124,7 @@ func (q *MultiOpQueryer) Subscribe(req *requests.Request, closeCh <-chan struct{
 				requests.SubError:
 				return
 			case requests.SubData:
+				verifhook.At("qs.reader.beforeSendData")
 				resCh <- serverResp.Payload
 			}
 		}
